@@ -77,7 +77,10 @@ O_LoadsBack(b) ==
     Evs[e].out = "ok" =>
         \E j \in (e + 1)..RoundEnd(b) :
             /\ Evs[j].op = "Load" /\ Evs[j].out = "ok"
-            /\ \A x \in DOMAIN Evs[j].eq : Evs[j].eq[x]
+            /\ \A x \in DOMAIN Evs[j].eq :
+                    \/ Evs[j].eq[x] = "same"
+                    \* allowed normalisation (C02): an empty secret comes back unset
+                    \/ Evs[j].eq[x] = "none" /\ Traces[tid].init.fields[x] = "bsecret"
 
 ObsPreds(b) ==
     {n \in {"C19_Untouched", "C19_Exact", "C19_LoadsBack"} :
